@@ -225,6 +225,18 @@ func genC13(tier string, seed uint64, idx int) *simkit.Plan {
 	p.SetC("masters", int64(masters))
 	p.SetC("servers", int64(servers))
 	p.SetC("vols", int64(vols))
+	// a KeepConnected client that is slow to take location updates: heartbeat handlers park in their
+	// broadcast, and assigns run while they are parked (hold=1) until the next step that needs the stream
+	slow := rng.Chance(1, 2)
+	if slow {
+		p.SetC("slowclient", 1)
+	}
+	hold := func() int {
+		if slow && rng.Chance(1, 2) {
+			return 1
+		}
+		return 0
+	}
 	for i := 0; i < n; i++ {
 		switch x := rng.Intn(100); {
 		case x < 40:
@@ -232,13 +244,13 @@ func genC13(tier string, seed uint64, idx int) *simkit.Plan {
 		case x < 62:
 			p.Add(simkit.St("write", rng.Uint64(), "pick", rng.Intn(1000), "j", rng.Intn(1000)))
 		case x < 78:
-			p.Add(simkit.St("hb", rng.Uint64(), "node", rng.Intn(servers)))
+			p.Add(simkit.St("hb", rng.Uint64(), "node", rng.Intn(servers), "hold", hold()))
 		case x < 84:
 			p.Add(simkit.St("nextvid", rng.Uint64()))
 		case x < 88:
 			p.Add(simkit.St("adv", rng.Uint64(), "ms", []int{1, 200, 5000}[rng.Intn(3)]))
 		case masters > 1:
-			p.Add(simkit.St("leader", rng.Uint64(), "m", rng.Intn(masters), "rehb", rng.Intn(3)))
+			p.Add(simkit.St("leader", rng.Uint64(), "m", rng.Intn(masters), "rehb", rng.Intn(3), "hold", hold()))
 		default:
 			p.Add(simkit.St("assign", rng.Uint64(), "count", 1))
 		}
@@ -435,9 +447,35 @@ func (c *c13run) system() {
 		}
 		return 0
 	}
+	// slow KeepConnected client
+	var clientChans []chan *master_pb.VolumeLocation
+	if p.C("slowclient") == 1 {
+		for _, m := range masters {
+			ch := make(chan *master_pb.VolumeLocation)
+			m.MS.VerifAddClientChan("slow@client:1", ch)
+			clientChans = append(clientChans, ch)
+		}
+	}
+	drain := func() {
+		for progress := true; progress; {
+			progress = false
+			simkit.Wait()
+			for _, ch := range clientChans {
+				select {
+				case <-ch:
+					progress = true
+					r.Probe("slow-client-took-a-location-update")
+				default:
+				}
+			}
+		}
+	}
+	reported := make([]uint64, nm) // largest MaxFileKey each master has received in a heartbeat
 	connectAll := func() {
+		drain()
 		t.m = masters[leader]
 		for i, s := range t.servers {
+			drain()
 			if s.stream != nil {
 				close(s.stream.in)
 				s.stream, s.reg = nil, nil
@@ -452,10 +490,14 @@ func (c *c13run) system() {
 			hb := t.fullMsg(s, s.actual, true)
 			hb.MaxFileKey = maxKey[i]
 			t.send(s, hb)
+			if maxKey[i] > reported[leader] {
+				reported[leader] = maxKey[i]
+			}
 		}
 	}
 	simkit.Wait()
 	connectAll()
+	drain()
 	seq := uint64(0)
 	vids := map[uint32]string{}
 	sinceLeaderChange := "steady"
@@ -479,7 +521,14 @@ func (c *c13run) system() {
 			a := assignment{vol: uint32(fid.VolumeId), key: uint64(fid.Key), count: resp.Count, by: m.Addr, seq: seq}
 			r.Log("assign by %s -> %s count=%d", m.Addr, resp.Fid, resp.Count)
 			r.Abs(fmt.Sprintf("assign:%v", resp.Count > 1))
-			c.record(a, sinceLeaderChange)
+			situation := sinceLeaderChange
+			for k := range c.used[a.vol] {
+				if k >= a.key && k < a.key+a.count && k <= reported[leader] {
+					// the assigning master had itself received a heartbeat reporting a key at or above this one
+					situation = "key-at-or-below-max-file-key-reported-to-the-assigning-master"
+				}
+			}
+			c.record(a, situation)
 		case "write":
 			if len(c.assigns) == 0 {
 				continue
@@ -499,9 +548,18 @@ func (c *c13run) system() {
 			n := int(st.Int("node")) % ns
 			s := t.servers[n]
 			if s.stream != nil {
+				drain()
 				hb := t.fullMsg(s, s.actual, false)
 				hb.MaxFileKey = maxKey[n]
 				t.send(s, hb)
+				if maxKey[n] > reported[leader] {
+					reported[leader] = maxKey[n]
+				}
+				if st.Int("hold") == 0 {
+					drain()
+				} else {
+					r.Fault("assigns-while-heartbeat-handler-parked-in-broadcast")
+				}
 				r.Log("heartbeat %s maxFileKey=%d", s.id(), maxKey[n])
 				r.Abs("hb")
 			}
@@ -530,6 +588,11 @@ func (c *c13run) system() {
 			sinceLeaderChange = "after-leader-change"
 			// volume servers follow the leader: they reconnect and report the largest key they hold
 			connectAll()
+			if st.Int("hold") == 0 {
+				drain()
+			} else {
+				r.Fault("assigns-while-heartbeat-handler-parked-in-broadcast")
+			}
 		case "adv":
 			time.Sleep(time.Duration(st.Int("ms")) * time.Millisecond)
 			simkit.Wait()
@@ -539,11 +602,12 @@ func (c *c13run) system() {
 			return
 		}
 	}
+	drain()
 	for _, s := range t.servers {
 		if s.stream != nil {
 			close(s.stream.in)
 		}
 	}
-	simkit.Wait()
+	drain()
 	_ = sort.Ints
 }
